@@ -41,6 +41,7 @@ type Config struct {
 	CoverModels     bool
 	DumpSMT         string
 	AbstractTime    bool
+	SleepEnv        bool // time.Sleep waits for a timer firing granted by the harness (polling loops)
 	NoSlice         bool
 	NoPOR           bool
 	Debug           bool
